@@ -714,3 +714,45 @@ func Renameat2(olddir, oldname, newdir, newname string, noreplace bool) error {
 	Notify(newdir, newname, InMovedTo)
 	return nil
 }
+
+// RawWrite is write(2) / writev(2) on a descriptor opened through this package, with the
+// system call's own contract: when only part of the data fits (a fault answer with @k, k > 0)
+// it returns the short count and NO error - the error would come from the next call. os.File
+// hides that by looping; code that calls the system call itself has to loop too.
+func RawWrite(fd int, data []byte) (int, error) {
+	path, ok := W.fdPaths[fd]
+	if !ok {
+		return -1, syscall.EBADF
+	}
+	if err := Begin("write[1/1]", path); err != nil {
+		var fe *FaultError
+		if errors.As(err, &fe) {
+			k := 0
+			if i := strings.IndexByte(fe.Answer, '@'); i >= 0 {
+				switch fe.Answer[i+1:] {
+				case "1":
+					k = 1
+				case "half":
+					k = len(data) / 2
+				case "all-but-1":
+					k = len(data) - 1
+				}
+			}
+			if k > len(data) {
+				k = len(data)
+			}
+			if k > 0 {
+				n, _ := syscall.Write(fd, data[:k])
+				Notify(filepath.Dir(path), filepath.Base(path), InModify)
+				return n, nil
+			}
+			return -1, fe.Errno
+		}
+		return -1, err
+	}
+	n, err := syscall.Write(fd, data)
+	if n > 0 {
+		Notify(filepath.Dir(path), filepath.Base(path), InModify)
+	}
+	return n, err
+}
